@@ -980,6 +980,23 @@ class Ctx:
         if q.is_const():
             return self.rint(q)
         half = Fraction(1, 2)
+        if self.max_degree is not None and max(q.n.degree(), q.d.degree()) > self.max_degree:
+            # nonlinear argument: one nondeterministic choice of the integer, recorded as (unasserted) knowledge about the
+            # two thresholds -- K*2+1 outcomes instead of a blind fork per comparison
+            cand = sorted(range(-K, K + 1), key=abs)
+            n = cand[self.choice(len(cand), "rint")]
+            for bound, op in ((n - half, ">"), (n + half, "<")):
+                b = _num(bound)
+                p = q.n * b.d - b.n * q.d
+                if p.t and not p.is_const():
+                    key, flip = p.canon()
+                    signs = _flip_set(_OPS[op]) if flip else _OPS[op]
+                    kn = self.known.get(key, _ALL)
+                    if not (kn & signs):
+                        raise _Abort()
+                    self.known[key] = kn & signs
+                    self.blind_atoms.append((key, signs))
+            return qconst(n)
         for n in sorted(range(-K, K + 1), key=abs):
             if q > n - half and q < n + half:
                 return qconst(n)
@@ -1344,6 +1361,9 @@ class ConcreteCtx:
     def rint(self, q, name=None):
         if self.mode == "float":
             return float(round(q))
+        if not _num(q).is_const():      # contains exact square roots: the nearest integer of its numerical value
+            v = self._approx(_num(q))
+            return qconst(math.floor(v + 0.5))
         c = _num(q).const()
         n = math.floor(c + Fraction(1, 2))
         if c + Fraction(1, 2) == n and n % 2:
